@@ -1867,15 +1867,14 @@ impl StorageEngine {
                 Value::Hash(hash) => {
                     let new_val = match hash.get(&field) {
                         Some(current_bytes) => {
-                            let current_str = String::from_utf8_lossy(current_bytes);
-                            match current_str.parse::<i64>() {
-                                Ok(current) => match current.checked_add(increment) {
+                            match crate::storage::value::parse_canonical_i64(current_bytes) {
+                                Some(current) => match current.checked_add(increment) {
                                     Some(sum) => sum,
                                     None => return Err(FerrousError::Command(CommandError::Generic(
                                         "increment or decrement would overflow".to_string()
                                     ))),
                                 },
-                                Err(_) => return Err(FerrousError::Command(CommandError::NotInteger)),
+                                None => return Err(FerrousError::Command(CommandError::NotInteger)),
                             }
                         }
                         None => increment,
